@@ -36,6 +36,11 @@ def subterms(t):
                 yield from subterms(x)
 
 
+def has_genobj(t):
+    """Does the term hold an unconsumed generator object (the result of calling a generator function)?"""
+    return isinstance(t, tuple) and any(isinstance(x, tuple) and x[:1] == ("genobj",) for x in subterms(t))
+
+
 def show(t, depth=0):
     """Compact human-readable rendering of a term."""
     if not isinstance(t, tuple) or not t:
